@@ -224,6 +224,8 @@ pub fn miri_main(args: &[String]) -> ! {
                     std::process::exit(1);
                 }
             }
+            // a layout the type's own alloc rejects (e.g. size 1 for a matrix type): skipped, as in the native run
+            Err(e) if e.starts_with("INADMISSIBLE") => {}
             Err(e) => {
                 println!("MIRI-C18: harness error {e}");
                 std::process::exit(2);
